@@ -60,6 +60,7 @@ def check_elements(part, zs):
     from chmpy.core import element as E
     from chmpy.core.element import Element
 
+    nth_refused = 0
     for z in zs:
         sym, name = ELEMENTS[z - 1]
         row = E._ELEMENT_DATA[z - 1]
@@ -102,6 +103,16 @@ def check_elements(part, zs):
             for attr, junk in (("vdw", -1.0), ("cov", -3.0), ("mass", -2.0), ("name", "scribbled"), ("symbol", "Zz")):
                 try:
                     setattr(e, attr, junk)
+                except Exception:
+                    pass
+            # after an error: between two valid lookups (this route and the next) comes one the table refuses - a look-alike label of THIS
+            # element, an empty string, an unknown symbol, a number out of range; it raises, and the next lookup is answered as above
+            nth_refused += 1
+            probe = ("%sq7" % sym, "Qq7", "", "%s_q" % name[:3], 0, 104, "  ", "%sQ%d" % (sym, z))[nth_refused % 8]
+            for rfn in ((lambda: Element[probe]), (lambda: Element.from_label(probe) if isinstance(probe, str) else Element.from_atomic_number(probe))):
+                try:
+                    rfn()
+                    part.count("refused_lookup_answered")
                 except Exception:
                     pass
         # vectorised helpers
